@@ -286,6 +286,101 @@ class Body:
                 dq.append(s)
         return seen
 
+    @property
+    def _bool_switch_locals(self):
+        """Plain (un-projected, not mutably borrowed) multi-def bool locals that some switch tests directly."""
+        if not hasattr(self, "_bsl"):
+            out = set()
+            for bi, blk in enumerate(self.blocks):
+                t = blk["term"]
+                if not t or t["k"] != "switch" or t.get("ty") != "bool":
+                    continue
+                o = t["o"]
+                l = self._switch_local(o)
+                if l is not None and l not in self.mut_borrowed and len(self.defs.get(l, [])) >= 2 and not self.defs.get((l, "partial")):
+                    out.add(l)
+            self._bsl = out
+        return self._bsl
+
+    def _switch_local(self, o):
+        """local tested by a switch operand, looking through single-def copies and `Not`: returns local or None
+        (the polarity is computed by _switch_local_pol)."""
+        r = self._switch_local_pol(o)
+        return r[0] if r else None
+
+    def _switch_local_pol(self, o, depth=0):
+        if o.get("k") not in ("copy", "move") or "pr" in o["p"] or depth > 6:
+            return None
+        l = o["p"]["l"]
+        ds = self.defs.get(l, [])
+        if len(ds) >= 2:
+            return (l, False)
+        if len(ds) == 1 and ds[0][0] == "stmt":
+            r = ds[0][3]
+            if r["k"] == "use":
+                return self._switch_local_pol(r["o"], depth + 1)
+            if r["k"] == "un" and r["op"] == "Not":
+                x = self._switch_local_pol(r["a"], depth + 1)
+                return (x[0], not x[1]) if x else None
+        return None
+
+    def reachable_bool(self, starts, env=None, blocked_nodes=(), blocked_edges=(), stop_nodes=()):
+        """Like `reachable`, but path-sensitive in the constant values of hoisted bool locals
+        (`let ok = a && b && c; if ok {..}` lowers to `ok = false` on the short-circuit edges): a switch on a tracked
+        local whose value is known on the current path follows only the matching edge.  Only infeasible paths are pruned,
+        so "no path reaches X" claims stay sound.  env: initial knowledge {local: bool} at the start blocks."""
+        tracked = self._bool_switch_locals
+        if not tracked:
+            return self.reachable(starts, blocked_nodes, blocked_edges, stop_nodes)
+        blocked_nodes = set(blocked_nodes)
+        blocked_edges = set(blocked_edges)
+        stop_nodes = set(stop_nodes)
+        env0 = frozenset((env or {}).items())
+        seen = set()
+        out = set()
+        dq = deque((s, env0) for s in starts if s not in blocked_nodes)
+        while dq:
+            b, ev = dq.popleft()
+            if (b, ev) in seen:
+                continue
+            seen.add((b, ev))
+            out.add(b)
+            if b in stop_nodes:
+                continue
+            blk = self.blocks[b]
+            if blk.get("cleanup"):
+                continue
+            e = dict(ev)
+            for st in blk["stmts"]:
+                if st["k"] == "assign" and "pr" not in st["p"] and st["p"]["l"] in tracked:
+                    r = st["r"]
+                    v = None
+                    if r["k"] == "use" and r["o"].get("k") == "const" and "v" in r["o"]:
+                        iv = _ival(r["o"]["v"])
+                        if iv in (0, 1):
+                            v = bool(iv)
+                    if v is None:
+                        e.pop(st["p"]["l"], None)
+                    else:
+                        e[st["p"]["l"]] = v
+            t = blk["term"]
+            if t and t["k"] == "call" and "pr" not in t["d"] and t["d"]["l"] in tracked:
+                e.pop(t["d"]["l"], None)
+            nxt = self.succ[b]
+            if t and t["k"] == "switch" and t.get("ty") == "bool":
+                lp = self._switch_local_pol(t["o"])
+                if lp and lp[0] in e:
+                    val = e[lp[0]] != lp[1]
+                    info = self.switch_info(b)
+                    want = "true" if val else "false"
+                    nxt = [tg for tg, ls in info[1].items() if want in ls]
+            ev2 = frozenset(e.items())
+            for s2 in nxt:
+                if s2 in blocked_nodes or (b, s2) in blocked_edges:
+                    continue
+                dq.append((s2, ev2))
+        return out
+
     def reachable_from_entry(self, **kw):
         return self.reachable([0], **kw)
 
@@ -739,6 +834,64 @@ class Body:
                 out.append((render(cond), frozenset(allowed), d, cond))
         return out
 
+    def derive_edges(self, edges, pred=None, start=0):
+        """Close a set of guard edges (edges on which some condition C is known to hold) under *bool hoisting*:
+        a switch on a plain bool local L (`let ok = a && b; ... if ok {..}`) contributes its `true` edge when every
+        definition of L is either the constant false, or sits at a block that is itself only reachable through edges
+        already in the set, or assigns an expression that satisfies `pred(expr, rendered, 'true')` (L *is* the
+        condition); symmetrically for the `false` edge.  `Not(L)` conditions are looked through.  Sound: only edges
+        that imply C are added.  Iterated to a fixpoint (chains of hoisted locals)."""
+        edges = set(edges)
+        cands = []
+        for bi in self.live:
+            t = self.blocks[bi]["term"]
+            if not t or t["k"] != "switch" or t.get("ty") != "bool":
+                continue
+            info = self.switch_info(bi)
+            cond = info[0]
+            neg = False
+            while cond[0] == "un" and cond[1] == "Not":
+                neg = not neg
+                cond = cond[2]
+            if cond[0] != "local" or cond[1] in self.mut_borrowed:
+                continue
+            ds = self.defs.get(cond[1], [])
+            if len(ds) < 2 or self.defs.get((cond[1], "partial")):
+                continue
+            cands.append((bi, info[1], cond[1], neg, ds))
+        changed = True
+        while changed:
+            changed = False
+            for bi, labs, l, neg, ds in cands:
+                for tgt, ls in labs.items():
+                    if (bi, tgt) in edges or len(ls) != 1:
+                        continue
+                    lab = next(iter(ls))
+                    if lab not in ("true", "false"):
+                        continue
+                    want = lab if not neg else ("false" if lab == "true" else "true")   # truth value of L on this edge
+                    ok = True
+                    for d in ds:
+                        e = self.rvalue_expr(d[3]) if d[0] == "stmt" else self.call_expr(d[3], d[1])
+                        if e[0] == "const" and e[1] in (0, 1):
+                            if ("true" if e[1] else "false") != want:
+                                continue          # this definition can never produce `want`
+                            # constant equal to `want`: only fine if the definition site is itself guarded
+                        if d[1] != start and d[1] not in self.reachable([start], blocked_edges=edges):
+                            continue              # definition only reachable through guard edges
+                        if pred is not None and e[0] != "const":
+                            try:
+                                if pred(e, render(e), want):
+                                    continue      # the local *is* the condition
+                            except Exception:
+                                pass
+                        ok = False
+                        break
+                    if ok:
+                        edges.add((bi, tgt))
+                        changed = True
+        return edges
+
     def must_pass_edges(self, site_bb, edges, start=0, correlate=None):
         """True iff every path start -> site_bb uses at least one edge in `edges`.
         correlate: regex; switches whose rendered condition matches it and is textually identical are assumed to
@@ -746,7 +899,7 @@ class Body:
         if site_bb == start:
             return False
         if correlate is None:
-            return site_bb not in self.reachable([start], blocked_edges=edges)
+            return site_bb not in self.reachable_bool([start], blocked_edges=edges)
         rx = re.compile(correlate)
         edges = set(edges)
         seen = set()
@@ -779,7 +932,7 @@ class Body:
 
     def must_pass_nodes(self, from_bbs, to_bbs, nodes):
         """True iff every path from any of from_bbs to any of to_bbs passes a block in `nodes`."""
-        r = self.reachable(from_bbs, blocked_nodes=nodes)
+        r = self.reachable_bool(from_bbs, blocked_nodes=nodes)
         return not (set(to_bbs) & r)
 
     def succ_after(self, site):
